@@ -21,6 +21,43 @@ type c11Case struct {
 	OnDisk    bool     `json:"on_disk,omitempty"`
 	Expect    string   `json:"expect,omitempty"` // name of the absolute check for `different` / `absent`
 	Noise     string   `json:"noise,omitempty"`
+	NameMode  string   `json:"name_mode,omitempty"`
+}
+
+// c11NameModes are the ways a project can get the name `proj` that every `<project>_<key>` default uses.
+var c11NameModes = []string{"", "file-overridden-by-caller", "file", "file-normalised", "file-interpolated"}
+
+func withNameMode(lc loadCase, mode string) loadCase {
+	if mode == "" || len(lc.Files) == 0 {
+		return lc
+	}
+	line := ""
+	switch mode {
+	case "file-overridden-by-caller":
+		line = "name: fromfile\n"
+	case "file":
+		line = "name: proj\n"
+		lc.Opts.ProjectName, lc.Opts.NameNotImperative = "fallback", true
+	case "file-normalised":
+		line = "name: \"Pr.oJ\"\n"
+		lc.Opts.ProjectName, lc.Opts.NameNotImperative = "fallback", true
+	case "file-interpolated":
+		line = "name: \"${PNAME}\"\n"
+		lc.Opts.ProjectName, lc.Opts.NameNotImperative = "fallback", true
+		env := map[string]string{"PNAME": "proj"}
+		for k, v := range lc.Env {
+			env[k] = v
+		}
+		lc.Env = env
+	}
+	files := append([]memFile{}, lc.Files...)
+	for i, f := range files {
+		if f.Name == "compose.yaml" {
+			files[i].Content = line + f.Content
+		}
+	}
+	lc.Files = files
+	return lc
 }
 
 // placed builds a project in which the fragment for service `web` (and top-level fragment) arrives from
@@ -269,6 +306,7 @@ func c11Check(c *Ctx, cs c11Case) *Failure {
 	c.Label("rule:" + cs.Rule)
 	c.Label("placement:" + cs.Placement)
 	c.Label("variant:" + cs.Variant)
+	c.Label("name:" + cs.NameMode)
 	files := []memFile{{Name: "a.env", Content: "A=1\n"}, {Name: "base/a.env", Content: "A=1\n"}}
 	load := func(lc loadCase) loadResult {
 		lc.Files = append(append([]memFile{}, lc.Files...), files...)
@@ -292,7 +330,7 @@ func c11Check(c *Ctx, cs c11Case) *Failure {
 		}
 		return b.String()
 	}
-	c.NonTrivial(fmt.Sprintf("%s|%s|%s|%s", cs.Rule, cs.Placement, cs.Variant, cs.Noise), map[string]any{"rule": cs.Rule, "placement": cs.Placement, "variant": cs.Variant, "a": cs.A.Files, "b": cs.B.Files})
+	c.NonTrivial(fmt.Sprintf("%s|%s|%s|%s|%s", cs.Rule, cs.Placement, cs.Variant, cs.Noise, cs.NameMode), map[string]any{"rule": cs.Rule, "placement": cs.Placement, "variant": cs.Variant, "a": cs.A.Files, "b": cs.B.Files})
 	if ra.Err != nil {
 		return failf("c11:model-rejected:"+cs.Rule+":"+cs.Variant, "rule %s placement %s variant %s: the model fails to load: %v\n%s", cs.Rule, cs.Placement, cs.Variant, ra.Err, desc(cs.A))
 	}
@@ -368,6 +406,13 @@ func c11Cases(noise map[string]any, noiseKey string) []c11Case {
 func TestC11(t *testing.T) {
 	c := NewCtx(t, "C11")
 	base := c11Cases(nil, "")
+	for _, cs := range append([]c11Case{}, base...) {
+		for _, m := range c11NameModes[1:] {
+			cs := cs
+			cs.NameMode, cs.A, cs.B = m, withNameMode(cs.A, m), withNameMode(cs.B, m)
+			base = append(base, cs)
+		}
+	}
 	RunEnum(c, t, "defaults", len(base), func(i int) c11Case { return base[i] }, c11Check, true)
 	// the same table on top of random other attributes of the service (the defaults must not depend on them)
 	RunRapid(c, t, Sub[c11Case]{Kind: "defaults-with-noise", Quick: 6000, Thorough: 50_000,
@@ -383,6 +428,9 @@ func TestC11(t *testing.T) {
 				}
 			}
 			cases := c11Cases(noise, jsonKey(noise))
-			return cases[rapid.IntRange(0, len(cases)-1).Draw(t, "case")]
+			cs := cases[rapid.IntRange(0, len(cases)-1).Draw(t, "case")]
+			cs.NameMode = rapid.SampledFrom(c11NameModes).Draw(t, "namemode")
+			cs.A, cs.B = withNameMode(cs.A, cs.NameMode), withNameMode(cs.B, cs.NameMode)
+			return cs
 		}, Check: c11Check})
 }
